@@ -28,15 +28,20 @@ _V.declare('VList', ('lref', Int))
 _V.declare('VDict', ('dref', Int))
 # kind: 0 = datetime.date (not a datetime), 1 = naive datetime, 2 = aware datetime
 # us: microseconds since the epoch of the *local naive* reading (for kind 2: of the UTC instant)
-_V.declare('VDate', ('kind', Int), ('us', Int))
+# off: for kind 2, the UTC offset (microseconds) of the value's own tzinfo; 0 otherwise
+_V.declare('VDate', ('kind', Int), ('us', Int), ('off', Int))
 _V.declare('VFunc', ('fid', Int))
 _V.declare('VRegex', ('rid', Int))
 _V.declare('VOther', ('oid', Int))   # any other host object (uuid.UUID, tuples leaking in, ...)
 V = _V.create()
 
 VNone = V.VNone
-VBool, VInt, VFloat, VStr, VList, VDict, VDate, VFunc, VRegex, VOther = (
-    V.VBool, V.VInt, V.VFloat, V.VStr, V.VList, V.VDict, V.VDate, V.VFunc, V.VRegex, V.VOther)
+VBool, VInt, VFloat, VStr, VList, VDict, VFunc, VRegex, VOther = (
+    V.VBool, V.VInt, V.VFloat, V.VStr, V.VList, V.VDict, V.VFunc, V.VRegex, V.VOther)
+
+
+def VDate(kind, us, off=None):
+    return V.VDate(kind, us, z3.IntVal(0) if off is None else off)
 is_none, is_bool, is_int, is_float, is_str, is_list, is_dict, is_date, is_func, is_regex, is_other = (
     V.is_VNone, V.is_VBool, V.is_VInt, V.is_VFloat, V.is_VStr, V.is_VList, V.is_VDict, V.is_VDate,
     V.is_VFunc, V.is_VRegex, V.is_VOther)
@@ -218,7 +223,9 @@ def wf_value(h, v):
         z3.Implies(is_list(v), z3.And(V.lref(v) < h.alloc, V.lref(v) >= 0, h.llen(V.lref(v)) >= 0)),
         z3.Implies(is_dict(v), z3.And(V.dref(v) < h.alloc, V.dref(v) >= 0, h.dnk(V.dref(v)) >= 0)),
         z3.Implies(is_date(v), z3.And(V.kind(v) >= 0, V.kind(v) <= 2,
-                                      V.us(v) >= -62135596800 * 10 ** 6, V.us(v) < 253402300800 * 10 ** 6)))
+                                      V.us(v) >= -62135596800 * 10 ** 6, V.us(v) < 253402300800 * 10 ** 6,
+                                      z3.Implies(V.kind(v) != 2, V.off(v) == 0),
+                                      V.off(v) > -86400 * 10 ** 6, V.off(v) < 86400 * 10 ** 6)))
 
 
 # ---------------------------------------------------------------------------------------------
